@@ -180,12 +180,25 @@ def tlc(module, cfg=None, workers=4, timeout=900, env_extra=None, simulate=None,
         cmd += extra
     cmd += ["-config", cfg or (module + ".cfg"), module + ".tla"]
     t0 = time.time()
-    try:
-        p = subprocess.run(cmd, cwd=cwd, env=env, stdout=subprocess.PIPE, stderr=subprocess.STDOUT,
-                           text=True, timeout=timeout)
-    except subprocess.TimeoutExpired:
+    for attempt in range(3):
+        try:
+            p = subprocess.run(cmd, cwd=cwd, env=env, stdout=subprocess.PIPE, stderr=subprocess.STDOUT,
+                               text=True, timeout=timeout)
+        except subprocess.TimeoutExpired:
+            shutil.rmtree(md, ignore_errors=True)
+            raise ToolError("TLC %s timed out after %ss" % (module, timeout))
+        # a JVM that did not come up (memory reservation, fork failure under load) is an environment hiccup: retry, and keep its words
+        if "TLC2 Version" in p.stdout and ("Finished in" in p.stdout or "Finished computing" in p.stdout):
+            break
+        try:
+            os.makedirs(os.path.join(WORK, "logs"), exist_ok=True)
+            with open(os.path.join(WORK, "logs", "tlc-incomplete.log"), "a") as f:
+                f.write("=== %s %s attempt %d rc=%s\n%s\n" % (module, cfg, attempt, p.returncode, p.stdout[-3000:]))
+        except OSError:
+            pass
+        time.sleep(2)
         shutil.rmtree(md, ignore_errors=True)
-        raise ToolError("TLC %s timed out after %ss" % (module, timeout))
+        os.makedirs(md, exist_ok=True)
     shutil.rmtree(md, ignore_errors=True)
     r = TlcResult(p.stdout, p.returncode)
     r.wall = time.time() - t0
